@@ -31,15 +31,24 @@ CLAIM = dict(
     "weight; mass conservation is preserved by reversal and scaling; therefore the discrete minimum is 0 for identical distributions, "
     "symmetric, positively homogeneous in the masses and in a constant weight, and every mass-conserving flux (converged or not) "
     "costs at least the minimum; on 1-D grids the mass-conserving flux is unique (prefix sums) so every method/mobility must return "
-    "its cost; EMD rescaling algebra; dispatch table re-tabulated from the code. OBSERVED by metamorphic runs of the real Newton/"
+    "its cost; FIRST-MOMENT BOUND |k|*||sum_c x_c vol f_c||_2 <= cost(u) for every mass-conserving flux, real quadrature nodes, "
+    "Euclidean norm per quadrature point (proved to be a seminorm), for every rule with non-negative weights of total 1 and first "
+    "moments 1/2 - discharged from C15's theorems for gauss_reference_cell of every accepted order (incl. order 0 and 'max') and the "
+    "corner rule, dims 1-3 (discrete integration by parts via div_adjoint + Jensen); THIN GRIDS in generic dimension (unique_flux_thin, "
+    "thin_cost_unique: n x 1, 1 x n, n x 1 x 1, ... any mass-conserving flux is THE flux and has THE cost); WEAK DUALITY "
+    "(potential_lower_bound: a potential p with a cell field g in the Euclidean unit ball, face-coupled, bounds the cost of every "
+    "mass-conserving flux from below, all L1 modes) - the harness finds (p, g) by LP, makes it exactly rational, the Lean model "
+    "re-checks the hypotheses exactly (certOK) and every reported distance, converged or not, is compared with that certified bound "
+    "on grids with <= 6 cycles; EMD rescaling algebra; dispatch table "
+    "re-tabulated from the code. OBSERVED by metamorphic runs of the real Newton/"
     "Bregman/cv2 back-ends (not proved: the iterations themselves): returned distance = independently recomputed cost of the flux "
     "recovered from the returned cell fluxes, which conserves mass; identical -> 0; swap; x2^k and generic scaling (Bregman with "
     "the regularisation parameter L scaled along - with fixed L its unconverged iterates are not homogeneous: known finding); constant "
-    "weight; first-moment bound; 1-D and thin n x 1 (x 1) grids against the closed form for every method x mobility x L1 mode; "
+    "weight; first-moment bound (also proved, see above); 1-D and thin n x 1 (x 1) grids against the closed form for every method x mobility x L1 mode; "
     "front-end = back-end; EMD single-cell moves, symmetry, scaling, first-moment bound.",
-    note="Not covered: convergence of Newton/Bregman to the minimum (C04/C08 own the solver internals); a certified brute-force minimum "
-    "(no SOCP solver offline) - replaced by the proved ge_min applied to the observed feasibility + cost tie; uniqueness on thin 2-D/3-D "
-    "grids and the first-moment bound are observed, not proved; cv2.EMD itself.",
+    note="Not covered: convergence of Newton/Bregman to the minimum (C04/C08 own the solver internals); the certified lower bound is the dual of "
+    "the midpoint-rule cost (tight to 0.2 % for CONSTANT_CELL_PROJECTION, 6-16 % below the scipy upper bound for the Gauss / corner rules, "
+    "whose exact dual needs one dual vector per quadrature point); cv2.EMD itself.",
     technique="Lean 4 proof (algebra of the cost functional and constraint) + metamorphic oracle on the real solvers + 1-D closed-form correspondence",
 )
 
@@ -443,58 +452,330 @@ def emd_oracle(ctx, d):
 # ---------------------------------------------------------------------------------------------- run
 
 
-def one_dim_correspondence(ctx, d):
-    """Lean model (exact rationals) vs real solvers on 1-D grids: unique flux and its cost for the rational rules."""
+def thin_case(args):
+    """worker: one real solve on a thin grid (exceptions as data)."""
+    import darsia as d
+
+    shape, hs, m1, m2, method, mob, l1 = args
+    dims = [s * h for s, h in zip(shape, hs)]
+    r = solve(d, np.array(m1), np.array(m2), dims, method, options(l1, mob, 100, L=1.0))
+    if isinstance(r, Raised):
+        return ("raised", repr(r), str(r.exc)[:120])
+    try:
+        return ("ok", float(r[0]), [u.tolist() for u in recover_flux(r[1]["flux"], tuple(shape))])
+    except Exception as e:  # noqa: BLE001
+        return ("raised", "!Other", f"info['flux'] unusable: {type(e).__name__}: {e}")
+
+
+def thin_correspondence(ctx, d):
+    """Lean model (exact rationals: prefix-sum flux, its feasibility, its exact cost) vs the real solvers on 1-D and thin
+    2-D/3-D grids, every method x mobility cycled, the two L1 modes with rational quadrature nodes."""
     rng = ctx.rng
-    reqs, cases = [], []
-    for _ in range(ctx.pick(6, 30)):
-        n = rng.randint(2, ctx.pick(12, 40))
-        h0 = rng.choice((0.25, 0.5, 1.0, 2.0, 0.75))
-        m1 = np.array([rng.randint(1, 16) / 8 for _ in range(n)])
-        m2 = np.array([rng.randint(1, 16) / 8 for _ in range(n)])
+    combos = list(itertools.product(("newton", "bregman"), MOB, L1[1:]))
+    rng.shuffle(combos)
+    nmax = ctx.pick(14, 40)
+    cases = []
+    forms = [lambda n: (n,), lambda n: (n, 1), lambda n: (1, n), lambda n: (n, 1, 1), lambda n: (1, n, 1), lambda n: (1, 1, n)]
+    for i in range(ctx.pick(18, 120)):
+        n = rng.choice((2, 3, nmax)) if i % 5 == 0 else rng.randint(2, nmax)
+        shape = forms[i % len(forms)](n)
+        dim = len(shape)
+        a = shape.index(n)
+        hs = [rng.choice((0.25, 0.5, 1.0, 2.0, 0.75)) for _ in range(dim)]
+        m1 = np.array([rng.randint(0 if i % 4 == 0 else 1, 16) / 8 for _ in range(n)])
+        m2 = np.array([rng.randint(0 if i % 4 == 0 else 1, 16) / 8 for _ in range(n)])
+        m1[0] += 0.125
+        m2[-1] += 0.125
         diff = float(m1.sum() - m2.sum())
         if diff >= 0:
             m2[-1] += diff
         else:
             m1[-1] -= diff
-        method = rng.choice(("newton", "bregman"))
-        mob = rng.choice(MOB)
-        l1 = rng.choice(L1[1:])  # rational quadrature rules: corners, midpoint
-        f = [frac(b) - frac(a) for a, b in zip(m1, m2)]
+        f = [frac(b) - frac(x) for x, b in zip(m1, m2)]
         if sum(f) != 0:
             continue
-        pts, w = quadrature(d, l1, 1)
-        r = solve(d, m1, m2, [n * h0], method, options(l1, mob, 100, L=1.0))
-        reqs.append(f"uflux {n} {fmt(h0)} {flist(f)}")
-        reqs.append(None)  # cost request is built from the model's flux
-        cases.append(dict(n=n, h0=h0, m1=m1, m2=m2, method=method, mob=mob, l1=l1, r=r, pts=pts, w=w, f=f))
-    ufl = ctx.model([q for q in reqs if q is not None])
-    creq = []
-    for c, u in zip(cases, ufl):
-        creq.append(f"cost1d {c['n']} {fmt(c['h0'])} {flist(c['w'])} {flist(c['pts'].ravel())} {c['n'] - 1} {u}".strip())
-    costs = ctx.model(creq)
+        method, mob, l1 = combos[i % len(combos)]
+        pts, w = quadrature(d, l1, dim)
+        req = f"thin {dim} {' '.join(map(str, shape))} {flist(hs)} {a} {flist(w)} {flist(pts.ravel())} {flist(f)}"
+        cases.append(dict(shape=list(shape), hs=hs, m1=m1.reshape(shape, order="F").tolist(), m2=m2.reshape(shape, order="F").tolist(),
+                          method=method, mob=mob, l1=l1, a=a, req=req))
+    with mp.get_context("fork").Pool(min(16, max(2, mp.cpu_count()))) as pool:
+        res = pool.map(thin_case, [(c["shape"], c["hs"], c["m1"], c["m2"], c["method"], c["mob"], c["l1"]) for c in cases], chunksize=1)
+    model = ctx.model([c["req"] for c in cases])
     bad = 0
-    for c, u, cm in zip(cases, ufl, costs):
-        ctx.count(("1d", c["n"], c["h0"], c["method"], c["mob"], c["l1"], c["m1"].tobytes()))
-        rp = {"shape": [c["n"]], "hs": [c["h0"]], "m1": c["m1"].tolist(), "m2": c["m2"].tolist(), "method": c["method"], "mob": c["mob"], "l1": c["l1"], "num_iter": 100}
-        if isinstance(c["r"], Raised):
-            ctx.fail(f"C05:thin-grid:raises:mobility={c['mob']}:{c['method']}", f"1-D grid n={c['n']}: {c['method']} raises {c['r']}", rp)
-            continue
+    worst = 0.0
+    for c, r, m in zip(cases, res, model):
+        ctx.count(("thin", c["req"], c["method"], c["mob"]))
+        rp = {k: c[k] for k in ("shape", "hs", "m1", "m2", "method", "mob", "l1")} | {"num_iter": 100}
         try:
+            flags, fl, cm = [x.strip() for x in m.split("|")]
             want = float(frac(cm))
-            uf = [float(frac(x)) for x in u.split()]
+            uf = [float(frac(x)) for x in fl.split()]
+            if flags != "1 1":
+                raise ValueError(flags)
         except Exception:  # noqa: BLE001
             bad += 1
+            first = (c["req"], m)
             continue
-        dist = float(c["r"][0])
-        got_u = recover_flux(c["r"][1]["flux"], (c["n"],))[0]
-        if len(uf) != len(got_u) or np.max(np.abs(np.array(uf) - got_u)) > 1e-9 * max(1.0, float(np.max(np.abs(uf)))):
-            ctx.fail(f"C05:thin-grid:flux:{c['method']}", f"1-D grid n={c['n']}: returned flux differs from the unique mass-conserving flux (prefix sums)", {**rp, "model_flux": uf, "impl_flux": got_u.tolist()})
+        if r[0] == "raised":
+            ctx.fail(f"C05:thin-grid:raises:mobility={c['mob']}:{c['method']}", f"grid {tuple(c['shape'])}: {c['method']} raises {r[1]}: {r[2]}", rp)
+            continue
+        dist, U_axes = r[1], r[2]
+        got_u = np.array(U_axes[c["a"]])
+        if len(uf) != len(got_u) or (len(uf) and np.max(np.abs(np.array(uf) - got_u)) > 1e-9 * max(1.0, float(np.max(np.abs(uf))))):
+            ctx.fail(f"C05:thin-grid:flux:{c['method']}", f"grid {tuple(c['shape'])}: returned flux differs from the unique mass-conserving flux (prefix sums)",
+                     {**rp, "model_flux": uf, "impl_flux": got_u.tolist()})
+        worst = max(worst, abs(dist - want) / max(want, 1e-300))
         if abs(dist - want) > 1e-9 * max(want, 1e-12):
-            ctx.fail(f"C05:thin-grid:mobility={c['mob']}:{c['method']}", f"1-D grid n={c['n']} {c['l1']}: distance {dist!r} but the unique mass-conserving flux costs {want!r} (exact model value)", {**rp, "distance": dist, "closed_form": want})
-    ctx.cov.setdefault("correspondence", {})["1d-unique-flux-and-cost(model exact vs solver, rel 1e-9)"] = {"cases": len(cases), "disagreements": bad}
+            ctx.fail(f"C05:thin-grid:mobility={c['mob']}:{c['method']}", f"grid {tuple(c['shape'])} {c['l1']}: distance {dist!r} but the unique mass-conserving flux costs {want!r} (exact model value)",
+                     {**rp, "distance": dist, "closed_form": want})
+    ctx.cov.setdefault("correspondence", {})["thin-unique-flux-and-cost(model exact vs solver, rel 1e-9)"] = {"cases": len(cases), "disagreements": bad, "max_rel_err": worst}
     if bad:
-        ctx.mark("TIE-BROKEN", {"correspondence": "1d-unique-flux-and-cost", "unparsable_model_lines": bad})
+        ctx.mark("TIE-BROKEN", {"correspondence": "thin-unique-flux-and-cost", "bad_model_lines": bad, "request": first[0], "model": first[1]})
+
+
+# ---------------------------------------------------------------------------------------------- brute-force minimum with a certificate
+
+
+def grid_tables(shape):
+    """own enumeration of faces: list of (axis, lo cell, hi cell) in DarSIA's numbering (axis-major, Fortran order)."""
+    dim = len(shape)
+    faces = []
+    for a in range(dim):
+        fs = list(shape)
+        fs[a] -= 1
+        for k in range(int(np.prod(fs))):
+            idx = list(np.unravel_index(k, fs, order="F")) if int(np.prod(fs)) else []
+            lo = int(np.ravel_multi_index(idx, shape, order="F"))
+            idx2 = list(idx)
+            idx2[a] += 1
+            hi = int(np.ravel_multi_index(idx2, shape, order="F"))
+            faces.append((a, lo, hi))
+    return faces
+
+
+def split_axes(U, shape):
+    out, pos = [], 0
+    for a in range(len(shape)):
+        fs = list(shape)
+        fs[a] -= 1
+        n = int(np.prod(fs))
+        out.append(np.asarray(U[pos:pos + n]))
+        pos += n
+    return out
+
+
+def sphere_dirs(dim):
+    if dim == 1:
+        return np.array([[1.0], [-1.0]])
+    if dim == 2:
+        t = np.arange(48) * (2 * np.pi / 48)
+        return np.stack([np.cos(t), np.sin(t)], axis=1)
+    n = 260
+    k = np.arange(n) + 0.5
+    phi = np.arccos(1 - 2 * k / n)
+    th = np.pi * (1 + 5 ** 0.5) * k
+    v = np.stack([np.cos(th) * np.sin(phi), np.sin(th) * np.sin(phi), np.cos(phi)], axis=1)
+    return np.concatenate([v, np.eye(3), -np.eye(3)])
+
+
+def dual_certificate(shape, hs, f):
+    """LP for (p, g), then an EXACT rational certificate: p rounded, g rebuilt along grid lines by g_hi = -2 dp/h - g_lo,
+    both scaled by a rational rho >= max ||g_c||_2. Returns (LB Fraction, p list, g list cell-major) or None."""
+    from scipy.optimize import linprog
+
+    dim, nc = len(shape), int(np.prod(shape))
+    faces = grid_tables(shape)
+    vol = float(np.prod(hs))
+    nv = nc + nc * dim
+    A_eq, b_eq = [], []
+    for a, lo, hi in faces:
+        row = np.zeros(nv)
+        row[hi] += vol / hs[a]
+        row[lo] -= vol / hs[a]
+        row[nc + lo * dim + a] += vol / 2
+        row[nc + hi * dim + a] += vol / 2
+        A_eq.append(row)
+        b_eq.append(0.0)
+    row = np.zeros(nv)
+    row[0] = 1.0
+    A_eq.append(row)
+    b_eq.append(0.0)
+    dirs = sphere_dirs(dim)
+    A_ub = np.zeros((nc * len(dirs), nv))
+    for c in range(nc):
+        A_ub[c * len(dirs):(c + 1) * len(dirs), nc + c * dim: nc + (c + 1) * dim] = dirs
+    cobj = np.zeros(nv)
+    cobj[:nc] = -vol * np.asarray(f, dtype=float)
+    res = linprog(cobj, A_ub=A_ub, b_ub=np.ones(len(A_ub)), A_eq=np.array(A_eq), b_eq=np.array(b_eq),
+                  bounds=[(None, None)] * nc + [(-1.5, 1.5)] * (nc * dim), method="highs")
+    if res.status != 0:
+        return None
+    Q = 2 ** 36
+    p = [Fraction(int(round(float(x) * Q)), Q) for x in res.x[:nc]]
+    g0 = res.x[nc:].reshape(nc, dim)
+    H = [Fraction(float(x)) for x in hs]
+    g = [[Fraction(0)] * dim for _ in range(nc)]
+    for a in range(dim):
+        # grid lines along axis a: start cells have index 0 along a
+        for c in range(nc):
+            idx = np.unravel_index(c, shape, order="F")
+            if idx[a] != 0:
+                continue
+            cur = Fraction(int(round(float(g0[c, a]) * Q)), Q) if shape[a] > 1 else Fraction(0)
+            g[c][a] = cur
+            cc = c
+            for _ in range(shape[a] - 1):
+                idx2 = list(np.unravel_index(cc, shape, order="F"))
+                idx2[a] += 1
+                nx = int(np.ravel_multi_index(idx2, shape, order="F"))
+                cur = -2 * (p[nx] - p[cc]) / H[a] - cur
+                g[nx][a] = cur
+                cc = nx
+    r2 = max(sum(x * x for x in gc) for gc in g)
+    rho = Fraction(int(math.ceil(math.sqrt(float(r2)) * (1 + 1e-12) * 2 ** 40)) + 1, 2 ** 40)
+    while rho * rho < r2:
+        rho += Fraction(1, 2 ** 30)
+    if rho <= 0:
+        return None
+    p = [x / rho for x in p]
+    g = [[x / rho for x in gc] for gc in g]
+    V = Fraction(1)
+    for x in H:
+        V *= x
+    lb = sum(pc * V * Fraction(float(fc)) for pc, fc in zip(p, f))
+    return lb, p, [x for gc in g for x in gc]
+
+
+def primal_minimum(d, shape, hs, f, l1, seeds=4):
+    """upper bound of the discrete minimum: cycle-space parametrisation + derivative-free / quasi-Newton restarts."""
+    from scipy.linalg import null_space
+    from scipy.optimize import minimize
+
+    faces = grid_tables(shape)
+    nc, nf = int(np.prod(shape)), len(faces)
+    vol = float(np.prod(hs))
+    D = np.zeros((nc, nf))
+    for j, (a, lo, hi) in enumerate(faces):
+        D[lo, j] += vol / hs[a]
+        D[hi, j] -= vol / hs[a]
+    rhs = vol * np.asarray(f, dtype=float)
+    U0 = np.linalg.lstsq(D, rhs, rcond=None)[0]
+    Z = null_space(D)
+
+    def fun(t):
+        return cost_indep(d, split_axes(U0 + Z @ t, shape), shape, hs, l1)
+
+    if Z.shape[1] == 0:
+        return fun(np.zeros(0)), 0
+    best = fun(np.zeros(Z.shape[1]))
+    rs = np.random.RandomState(12345)
+    starts = [np.zeros(Z.shape[1])] + [rs.normal(scale=np.abs(U0).max() + 1e-3, size=Z.shape[1]) for _ in range(seeds)]
+    for t0 in starts:
+        for meth in ("Powell", "BFGS", "Nelder-Mead"):
+            try:
+                r = minimize(fun, t0, method=meth, options={"maxiter": 4000, "xtol": 1e-10, "ftol": 1e-13} if meth == "Powell" else {"maxiter": 4000})
+                t0 = r.x
+                best = min(best, float(r.fun))
+            except Exception:  # noqa: BLE001
+                pass
+    return best, Z.shape[1]
+
+
+def bf_case(cfg):
+    """worker: certificate + upper bound + the real solvers (converged and not) for one small grid."""
+    import darsia as d
+
+    shape, hs = tuple(cfg["shape"]), list(cfg["hs"])
+    dims = [s * h for s, h in zip(shape, hs)]
+    m1, m2 = np.array(cfg["m1"]), np.array(cfg["m2"])
+    f = (m2 - m1).ravel("F")
+    out = dict(fails=[], runs=[], cert=None, ub={}, n=0)
+    try:
+        cert = dual_certificate(shape, hs, f)
+    except Exception as e:  # noqa: BLE001
+        cert = None
+        out["cert_error"] = f"{type(e).__name__}: {e}"
+    if cert is None:
+        return out
+    lb, p, g = cert
+    out["cert"] = dict(lb=str(lb), req=f"cert {len(shape)} {' '.join(map(str, shape))} {flist(hs)} {flist(f)} {flist(p)} {flist(g)}")
+    lbf = float(lb)
+    for l1 in L1:
+        try:
+            out["ub"][l1] = primal_minimum(d, shape, hs, f, l1, seeds=cfg.get("seeds", 4))[0]
+        except Exception as e:  # noqa: BLE001
+            out["ub"][l1] = None
+    for method, mob, l1, ni in cfg["runs"]:
+        r = solve(d, m1, m2, dims, method, options(l1, mob, ni, L=1.0))
+        out["n"] += 1
+        rp = {"shape": list(shape), "hs": hs, "m1": m1.tolist(), "m2": m2.tolist(), "method": method, "mob": mob, "l1": l1, "num_iter": ni}
+        if isinstance(r, Raised):
+            out["fails"].append((f"C05:general:raises:mobility={mob}:{method}", f"grid {shape}: {method} raises {r}: {str(r.exc)[:100]}", rp))
+            continue
+        dist = float(r[0])
+        out["runs"].append((method, mob, l1, ni, dist, bool(r[1].get("converged"))))
+        if dist < lbf * (1 - 1e-9) - 1e-14:
+            out["fails"].append((f"C05:below-certified-minimum:{method}", f"{method}:{mob}:{l1} grid {shape} ({ni} iterations, converged={r[1].get('converged')}): distance {dist!r} is below the "
+                                 f"certified lower bound {lbf!r} of the discrete minimum (dual certificate, see replay)", {**rp, "distance": dist, "lower_bound": lbf, "certificate": out["cert"]["req"]}))
+    return out
+
+
+def bf_case_safe(cfg):
+    try:
+        return bf_case(cfg)
+    except Exception as e:  # noqa: BLE001
+        import traceback
+
+        return dict(fails=[("C05:oracle-crash:bruteforce", f"{type(e).__name__}: {e} :: {traceback.format_exc()[-300:]}", dict(cfg))], runs=[], cert=None, ub={}, n=0)
+
+
+def bruteforce(ctx):
+    rng = ctx.rng
+    small = [(2, 2), (2, 3), (3, 3), (2, 4), (2, 5), (3, 4), (2, 2, 2), (3, 2, 1), (1, 2, 4)]
+    cfgs = []
+    for i in range(ctx.pick(5, 30)):
+        shape = small[i % len(small)] if i < len(small) else rng.choice(small)
+        hs = [rng.choice((0.25, 0.5, 1.0, 2.0, 0.3, 1.3)) for _ in shape]
+        m1, m2 = gen_pair(rng, shape, rng.choice(("positive", "compact")))
+        runs = []
+        for method in ("newton", "bregman"):
+            for _ in range(2):
+                runs.append((method, rng.choice(MOB), rng.choice(L1), rng.choice((3, 10))))
+                runs.append((method, rng.choice(MOB), rng.choice(L1), 200))
+        cfgs.append(dict(shape=list(shape), hs=hs, m1=m1.tolist(), m2=m2.tolist(), runs=runs, seeds=ctx.pick(1, 4)))
+    with mp.get_context("fork").Pool(min(16, max(2, mp.cpu_count()))) as pool:
+        res = pool.map(bf_case_safe, cfgs, chunksize=1)
+    reqs = [r["cert"]["req"] for r in res if r["cert"]]
+    model = ctx.model(reqs)
+    k = 0
+    bad = 0
+    gaps, slack = {}, []
+    for cfg, r in zip(cfgs, res):
+        ctx.count(("bruteforce", json.dumps(cfg, sort_keys=True)), n=max(1, r["n"]))
+        for sig, what, rp in r["fails"]:
+            ctx.fail(sig, what, rp)
+        if not r["cert"]:
+            continue
+        want = f"1 {fmt(Fraction(r['cert']['lb']))}"
+        if model[k].strip() != want:
+            bad += 1
+            first = (reqs[k][:300], model[k], want)
+        k += 1
+        lbf = float(Fraction(r["cert"]["lb"]))
+        for l1, ub in r["ub"].items():
+            if ub is not None and lbf > 0:
+                gaps[l1] = max(gaps.get(l1, 0.0), (ub - lbf) / ub)
+                if ub < lbf * (1 - 1e-9):
+                    ctx.mark("TIE-BROKEN", {"bruteforce": "upper bound below certified lower bound (harness inconsistency)", "shape": cfg["shape"], "l1": l1, "ub": ub, "lb": lbf})
+        for (method, mob, l1, ni, dist, conv) in r["runs"]:
+            if lbf > 0:
+                slack.append((dist - lbf) / lbf)
+    ctx.cov.setdefault("correspondence", {})["dual-certificates(exact check by the Lean model)"] = {"cases": len(reqs), "disagreements": bad}
+    ctx.cov["bruteforce"] = {"grids": len(cfgs), "certified": len(reqs), "max_relative_gap_upper_vs_certified_lower_bound_by_L1_mode": gaps,
+                             "min_relative_slack_distance_over_lower_bound": min(slack) if slack else None, "solver_runs": sum(r["n"] for r in res)}
+    if bad:
+        ctx.mark("TIE-BROKEN", {"correspondence": "dual-certificates", "request": first[0], "model": first[1], "expected": first[2], "n_diffs": bad})
 
 
 def make_cases(ctx):
@@ -506,8 +787,8 @@ def make_cases(ctx):
     thin = [(5,), (9,), (6, 1), (1, 7), (4, 1, 1), (1, 5, 1), (1, 1, 6), (12,), (1, 40), (40, 1)]
     combos = list(itertools.product(("newton", "bregman"), MOB, L1))
     rng.shuffle(combos)
-    n_general = ctx.pick(16, 100)
-    n_thin = ctx.pick(20, 100)
+    n_general = ctx.pick(12, 100)
+    n_thin = ctx.pick(14, 100)
     for i in range(n_general + n_thin):
         is_thin = i >= n_general
         shape = rng.choice(thin if is_thin else general)
@@ -528,6 +809,17 @@ def run(ctx):
 
     t = tabulate_dispatch(d)
     ctx.write_gen("TransportDispatch", emit_dispatch(t))
+    # the first-moment theorems are about the quadrature tables of C15: re-extract them from the current source with
+    # C15's own generator (validated there against the running gauss()); on failure the committed table is kept.
+    try:
+        from . import c15
+        from ..lib.core import REPO
+
+        ex = c15.extract((REPO / "src" / "darsia" / "utils" / "quadrature.py").read_text())
+        ctx.write_gen("QuadratureTables", c15.emit(ex, c15.tabulate_corners(d)))
+        ctx.cov["quadrature_tables"] = "re-extracted from the current source (C15 generator)"
+    except Exception as e:  # noqa: BLE001
+        ctx.cov["quadrature_tables"] = f"committed table kept ({type(e).__name__}: {str(e)[:120]})"
     ctx.prove("C05")
     # dispatch table: model (generated) vs implementation, and the statement on the implementation
     lines = [f"dispatch {k}" for k in METHODS]
@@ -536,7 +828,8 @@ def run(ctx):
         if t[k] != want:
             ctx.fail(f"C05:dispatch:{k}", f"wasserstein_distance(method={METHODS[k]!r}) reaches {t[k]!r}, documented back-end is {want}", {"method": METHODS[k]})
 
-    one_dim_correspondence(ctx, d)
+    thin_correspondence(ctx, d)
+    bruteforce(ctx)
     emd_oracle(ctx, d)
 
     cases = make_cases(ctx)
